@@ -45,8 +45,8 @@ def _p(files, props, facts=()):
 REGISTRY = {
     "C03": dict(**_p(["Proofs/C03Proofs.v"], ["Props/C03.v"], ["Consts"]),
                 theorems=["C03_statement_holds"],
-                corr=["cap", "opt", "constraints", "production", "limiting", "dtot.coherent",
-                      "init.inv_duration", "init.tech", "init.mask", "init.stock", "init.X0"],
+                corr=["cap", "opt", "constraints", "production", "limiting", "dtot.coherent", "delta.total", "delta.capital",
+                      "init.capital", "init.inv_duration", "init.tech", "init.mask", "init.stock", "init.X0"],
                 monitors=[M.mon_c03]),
     "C04": dict(**_p(["Proofs/C04Proofs.v"], ["Props/C04.v"], ["Layout"]),
                 theorems=["C04_statement_holds"],
@@ -56,7 +56,7 @@ REGISTRY = {
                 theorems=["C05_accounting_holds", "C05_crash_holds", "C05_infinite_holds"],
                 corr=["stock.update", "stock.crash", "stock.infinite", "deliver.matrix", "production",
                       "init.stock", "init.tech", "init.inv_duration"],
-                monitors=[M.mon_c05]),
+                monitors=[M.mon_c05], extra=X.extra_c05),
     "C06": dict(**_p(["Proofs/C06Proofs.v"], ["Props/C06.v"], ["Divide"]),
                 theorems=["C06_statement_holds"],
                 corr=["orders", "dtot.coherent", "init.restoration", "init.inv_duration", "init.zdist", "init.Z0", "init.tech", "init.X0"],
@@ -72,7 +72,8 @@ REGISTRY.update({
     "C07": dict(**_p(EV_FILES + ["Proofs/C07Proofs.v"], ["Props/C07.v"], ["Arb"]),
                 theorems=["C07_formula_holds", "C07_range_holds", "C07_support_holds", "C07_reject_holds", "C07_perm_holds"],
                 corr=["delta.exceeded", "delta.capital", "delta.arbitrary", "delta.total", "cap", "init.capital", "ingest.capital",
-                      "create.dmg0", "create.arb0", "create.dmg", "create.arb"],
+                      "create.dmg0", "create.arb0", "create.dmg", "create.arb",
+                      "reb.dmg", "rec.dmg", "rec.arb", "step.dmg", "step.arb"],
                 monitors=[M.mon_c07]),
     "C08": dict(**_p(EV_FILES + ["Proofs/C08Proofs.v"], ["Props/C08.v"], ["Layout", "Ledger"]),
                 theorems=["C08_ledger_cell_holds", "C08_ledger_monotone_holds", "C08_receive_holds", "C08_presented_holds",
